@@ -67,6 +67,17 @@ class C07(PropCheck):
             yield case
 
     def run_impl(self, case):
+        try:
+            return self._run_impl(case)
+        except Exception as e:
+            # a run that does not finish is outside the property: a population whose weighted covariance is singular
+            # (e.g. two particles, one with weight ~0) makes the mixture density undefined and scipy refuses it
+            if type(e).__name__ == 'LinAlgError' or 'All sample weights are zero' in str(e):
+                self.bump('run_did_not_finish:' + type(e).__name__)
+                return dict(skipped=True, populations=[], problems=[], weights_vary=False)
+            raise
+
+    def _run_impl(self, case):
         import elfi
         import elfi.clients.native as native
         from elfi.store import OutputPool
@@ -173,7 +184,7 @@ class C07(PropCheck):
         return json.dumps(case, sort_keys=True)
 
     def to_coq(self, case, out):
-        return out['coq']
+        return out.get('coq')
 
 
 if __name__ == '__main__':
